@@ -91,7 +91,7 @@ func c03Decode(r c03Req) (host string, ok bool) {
 
 func CheckC03(l *Lab, verifDir string) int {
 	rep := NewReport("C03", l.Tier, l.Seed, "exploration", verifDir)
-	rep.Rule = "one real gateway process (under strace -e connect) per configuration {any, signed, roundrobin, unsigned} x host lists (literal entries, user placeholder, IPv6, names whose substitution collides with another entry) x users (incl. empty and a user whose name contains another's) x {token auth via openid, ntlm stand-in}; per process the allowed entries and generated near-misses of them (port +-1 / 0 / 65535, trailing dot, case, proper prefix / suffix / superstring, another user's substituted entry, the template text, embedded / doubled / trailing NUL, bracketed IPv4, IPv6 variants, surrogates, odd-length UTF-16, nameSize larger / smaller than the bytes present, resource counts != 1/0) are sent as channel-create requests on fresh tunnels. Oracle: independent policy model P(mode, hosts, user, token host, requested); allow => status 0, exactly one dial event and connect() to the requested address, the accept lands on the named listener and on no decoy (listeners on port-1 / port+1 and others); deny => resource-access-denied status, no dial event, no accept anywhere, no connect() except to the IdP / auth socket. non-trivial = channel-create answered; distinct = configuration x request class x outcome"
+	rep.Rule = "one real gateway process (under strace -e connect) per configuration {any, signed, roundrobin, unsigned} x host lists (literal entries, user placeholder, IPv6, names whose substitution collides with another entry) x users (incl. empty and a user whose name contains another's) x {token auth via openid, ntlm stand-in}; per process the allowed entries and generated near-misses of them (port +-1 / 0 / 65535, trailing dot, case, proper prefix / suffix / superstring, another user's substituted entry, the template text, embedded / doubled / trailing NUL, bracketed IPv4, IPv6 variants, surrogates, odd-length UTF-16, nameSize larger / smaller than the bytes present, resource counts != 1/0) are sent as channel-create requests on fresh tunnels. Oracle: independent policy model P(mode, hosts, user, token host, requested); allow => status 0, exactly one dial event and connect() to the requested address, the accept lands on the named listener and on no decoy (listeners on port-1 / port+1 and others); deny => resource-access-denied status, no dial event, no accept anywhere, no connect() except to the IdP / auth socket. Concurrent phase: one process per list mode with 25 placeholder entries and two users, rounds of 32 tunnels walked to tunnel-auth and released at once, half asking for their own substituted entry (must be allowed) and half for the other user's (must be denied, listener accept counts must equal the allowed requests). non-trivial = channel-create answered; distinct = configuration x request class x outcome"
 	var cfgs []c03Cfg
 	id := 0
 	for _, kind := range []string{"openid", "ntlm"} {
@@ -136,6 +136,9 @@ func CheckC03(l *Lab, verifDir string) int {
 	}
 	close(jobs)
 	wg.Wait()
+	for _, mode := range []string{"roundrobin", "unsigned"} {
+		c03Concurrent(l, rep, mode, l.Pick(10, 150))
+	}
 	return rep.Finish(50)
 }
 
